@@ -125,8 +125,8 @@ def run(chk):
                         masks.append(p)
                     if v != PROVED:
                         break
-                    if masks != sorted(set(masks)):
-                        v, d = REFUTED, "cubes are duplicated or out of order: %s for %s" % (masks, w_)
+                    if len(masks) != len(set(masks)):
+                        v, d = REFUTED, "a cube is emitted twice: %s for %s" % (masks, w_)
                         break
                     if C.num_vars(o.value).val != n:
                         v, d = REFUTED, "result has num_vars %s" % C.num_vars(o.value).val
@@ -146,7 +146,7 @@ def run(chk):
                     if free:
                         v, d = UNDECIDED, "path does not determine the function"
                         break
-                    if masks != want:
+                    if sorted(masks) != want:
                         v, d = REFUTED, "for the function %s the emitted cubes are %s, the Reed-Muller form is %s" % (f, masks, want)
                         break
                 if v == PROVED and npaths != 1 << (1 << n):
